@@ -626,16 +626,12 @@ def _parse_phase_rest(
             return self.replacement_node
         else:""")]),
     dict(id="escape-without-inverse", kind=B, props=["C04"], expect="TABLE-argparse", edits=[("ast_utils.py",
-         """                            value=set_value((fill if word_wrap else identity)(doc)),""",
-         """                            value=set_value((fill if word_wrap else identity)(doc.replace("%", "%%"))),""")]),
+         """                                (fill if word_wrap else identity)(doc).replace("%", "%%")""",
+         """                                (fill if word_wrap else identity)(doc.replace("\\t", "    ")).replace("%", "%%")""")]),
     dict(id="escape-with-inverse", kind=N, props=["C04"], expect="silent", edits=[("ast_utils.py",
-         """                            value=set_value((fill if word_wrap else identity)(doc)),""",
-         """                            value=set_value((fill if word_wrap else identity)(doc.replace("%", "%%"))),"""), ("emitter_utils.py",
-         """                get_value(key_word.value)
-                for key_word in expr.value.keywords
-                if key_word.arg == "help" and key_word.value""", """                get_value(key_word.value).replace("%%", "%")
-                for key_word in expr.value.keywords
-                if key_word.arg == "help" and key_word.value""")]),
+         """                                (fill if word_wrap else identity)(doc).replace("%", "%%")""",
+         """                                (fill if word_wrap else identity)(doc.replace("\\t", "<tab>")).replace("%", "%%")"""), ("emitter_utils.py",
+         """                get_value(key_word.value).replace("%%", "%")""", """                get_value(key_word.value).replace("%%", "%").replace("<tab>", "\\t")""")]),
     # ------------------------------------------------------------------ round 3 additions
     dict(id="firstmatch-deque-last", kind=B, props=["C07", "C19"], expect="FIRST-MATCH", edits=[("parse.py",
          """    function_def = next(
